@@ -682,7 +682,7 @@ def model_lists(ans):
 def evaluate(ctx, graphs, ncli=2, corpus=False):
     L.preimport()
     jobs = [(g, roots_of(g), queries_of(g)) for g in graphs]
-    impl = parallel_map(in_child_job, jobs, workers=6)
+    impl = parallel_map(in_child_job, jobs, workers=4)
     answers = ctx.lean.ask_many([model_request(*j) for j in jobs])
     clijobs = []
     for gi, (g, roots, queries) in enumerate(jobs):
@@ -694,7 +694,7 @@ def evaluate(ctx, graphs, ncli=2, corpus=False):
             else:
                 clijobs.append((gi, "uses", ctx.rng.randrange(len(queries))))
     cliout = parallel_map(in_child_cli, [(jobs[gi][0], kind, ((jobs[gi][1][a[0]], MODES[a[1]]) if kind == "list" else jobs[gi][2][a]))
-                                         for gi, kind, a in clijobs], workers=6)
+                                         for gi, kind, a in clijobs], workers=4)
     for (g, roots, queries), io_, ans in zip(jobs, impl, answers):
         if "bad-op" in ans:
             raise common.InfraError("driver rejected a C13 request: %s" % ans["bad-op"])
@@ -802,7 +802,7 @@ def evaluate(ctx, graphs, ncli=2, corpus=False):
             if su:
                 sjobs.append((g, su))
     if sjobs:
-        simpl = parallel_map(in_child_setup, sjobs, workers=6)
+        simpl = parallel_map(in_child_setup, sjobs, workers=4)
         sans = ctx.lean.ask_many([{"m": "c13", "op": "setup", "graph": {"products": g["products"]}, "setup": su,
                                    "roots": su, "modes": MODES} for g, su in sjobs])
         for (g, su), io_, ans in zip(sjobs, simpl, sans):
